@@ -219,7 +219,9 @@ def random_group(rng, gi, cfg):
     for ri in range(nr, 0, -1):      # later rules first; references only to later rules: no recursion
         roots[ri - 1] = expr(cfg.depth if ri == 1 else cfg.depth - 1, list(range(ri + 1, nr + 1)), [])
     g.rules = roots
-    g.disp = [("d%d" % (i + 1)) if cfg.disp and (gi + i) % 3 == 0 else "" for i in range(nr)]
+    # display names: plain ones, and spellings with a back quote, a percent sign, an apostrophe, in single quotes or as a raw string
+    odd = ['"d`%d"', "'`'", '`r%d`', '"it\'s %%s"', '"d d"']
+    g.disp = [(("d%d" % (i + 1)) if (gi + i) % 2 else odd[(gi + i) // 2 % len(odd)].replace("%d", str(i + 1))) if cfg.disp and (gi + i) % 3 == 0 else "" for i in range(nr)]
     g.compute_args()
     g.maydiverge = g.may_diverge()
     return g
